@@ -333,6 +333,13 @@ func runScenario(rep *hlib.Report, cw *hlib.CaseWriter, s *Scenario, id int, bks
 				rep.Count("block:accepted")
 			} else {
 				rep.Count("block:rejected")
+				rep.Count("reject:" + errBucket(bo.Err))
+				if len(bo.Txs) < len(txs[bi]) {
+					rep.Count("reject-at-note:" + txs[bi][len(bo.Txs)].spec.Note)
+					if txs[bi][len(bo.Txs)].spec.Note == "valid" {
+						rep.Count("valid-rejected-because:" + errBucket(bo.Err))
+					}
+				}
 			}
 			nacc += len(bo.Txs)
 			for ti, t := range bo.Txs {
@@ -369,14 +376,24 @@ func runScenario(rep *hlib.Report, cw *hlib.CaseWriter, s *Scenario, id int, bks
 			Blocks: []BlockSpec{{Ctx: s.Blocks[0].Ctx}}}
 		var accTxs []*builtTx
 		var accObs []*TxObs
+		pooled := true // the worker only sees transactions that passed the pool's ValidateQiTxInputs (ownership is checked there)
 		for i, v := range wo.Verdicts {
 			if v != nil {
 				accTxs = append(accTxs, txs[0][i])
 				accObs = append(accObs, v)
+				if !wo.Mempool[i] {
+					pooled = false
+				}
 			}
 		}
 		rep.Count(fmt.Sprintf("worker:accepted=%d", len(accTxs)))
+		if !pooled {
+			rep.Count("worker:accepted a tx the pool would refuse (not replayed)")
+		}
 		if len(accTxs) > 0 {
+			rep.Nontrivial(fmt.Sprintf("worker/%d", id))
+		}
+		if len(accTxs) > 0 && pooled {
 			rep.Nontrivial(fmt.Sprintf("worker/%d", id))
 			for _, bk := range []backend{bks[0], bks[2]} {
 				db2, close2 := bk.open(tmp)
@@ -400,7 +417,7 @@ func runScenario(rep *hlib.Report, cw *hlib.CaseWriter, s *Scenario, id int, bks
 			if v == nil {
 				vs[i] = "None"
 			} else {
-				vs[i] = hlib.CoqSome(coqObs(*v))
+				vs[i] = hlib.CoqSome("(" + coqObs(*v) + ")")
 			}
 		}
 		mp := make([]string, len(wo.Mempool))
@@ -474,4 +491,17 @@ func main() {
 		runScenario(rep, cw, s, id, bks, tmp, sigRng)
 		id++
 	}
+}
+
+// errBucket maps an error text to a coarse bucket for the distribution report (statistics only).
+func errBucket(m string) string {
+	for _, k := range []string{"non-existent", "locked", "invalid pubkey", "owned by Quai", "higher than max", "non-zero lock", "Duplicate address",
+		"different To addresses", "not in the Qi ledger scope", "not in quai ledger scope", "refund address", "too many cross-region", "too many cross-prime",
+		"not eligible", "less than the amount", "insufficient fee", "hold interval", "both a conversion", "combine smaller", "invalid signature",
+		"at least one input", "chain ID", "with data", "too much gas", "gas limit reached", "expected Quai address", "panic"} {
+		if strings.Contains(m, k) {
+			return k
+		}
+	}
+	return "other"
 }
